@@ -5,8 +5,11 @@ From Coq Require Import List Arith Bool ZArith.
 Import ListNotations.
 From Onet Require Export Base.Corr Net.Tls.
 
-(* what the honest side was observed to do *)
-Inductive obs := Obs (hs : bool) (disp : nat) (stamp : list key) (crash : bool).
+(* what the honest side was observed to do.  [hp]: the honest side's OWN
+   certificate, whenever the deviating peer got to see it, carried a valid proof
+   (signature by the honest key over the peer's nonce and the honest CN, in the
+   format the code under test uses); compared (must be true), not part of [check] *)
+Inductive obs := Obs (hs : bool) (disp : nat) (stamp : list key) (crash : bool) (hp : bool).
 
 (* one run: level, role, suite, ground truth (private server keys the deviating
    peer holds), what it presented, its identity message, number of application
@@ -35,10 +38,10 @@ Fixpoint keys_eqb (a b : list key) : bool :=
 
 Definition agree (c : case) : bool :=
   match c with
-  | Case lv r s _ h id msgs (Obs hs disp stamp crash) =>
+  | Case lv r s _ h id msgs (Obs hs disp stamp crash hp) =>
       let m := link code_fx lv r s h id msgs in
       Bool.eqb (out_crash m) crash && Bool.eqb (out_hs m) hs && (out_disp m =? disp) &&
-      keys_eqb (out_stamp m) stamp
+      keys_eqb (out_stamp m) stamp && hp
   end.
 
 Definition mismatches (l : list case) : list nat := mism_idx agree l.
@@ -47,7 +50,7 @@ Definition mismatches (l : list case) : list nat := mism_idx agree l.
    [Tls.link_property] in Net/TlsProofs.v (prop_check_sound) *)
 Definition check (c : case) : list nat :=
   match c with
-  | Case lv r s holds h id _ (Obs hs disp stamp crash) =>
+  | Case lv r s holds h id _ (Obs hs disp stamp crash _) =>
       prop_check lv r s holds h id hs disp stamp crash
   end.
 
